@@ -40,7 +40,8 @@ THEOREMS = ('C09_circle_bounds_rounded_match_extents / C09_ring_bounds_rounded_m
             'C09_ellipse_bounds_rounded_match_extents (Props/C09c.v)')
 RULE = ('curved bounds: fixed circles / full rings / ellipses at latitudes 0, +-75 and longitudes +-179.9 with radii 1 m and '
         '10 km, plus seeded random ones (|lat| <= 75, any longitude, radius 1 m .. 10 km log-uniform, axis ratio 0.05 .. 1, any '
-        'rotation, ring angle ranges [a, a+360]); each compared with the real-number model by four interval lemmas and with the '
+        'rotation, ring angle ranges [a, a+360]); every other shape first goes through 1-3 random read-only calls that carry an '
+        'outline resolution k; each compared with the real-number model by four interval lemmas and with the '
         'independent extents. non-trivial = distinct shapes whose four bounds were checked')
 ASSUMPTIONS = ['curved bounds: a Python float is a real number up to the tolerance of the interval lemmas (6e-8 deg, of which '
                '5e-8 is the code\'s own rounding); math.sin/cos/asin/atan2/sqrt are accurate to a few ulp']
@@ -86,6 +87,48 @@ def gen_shapes(rng, n):
             out.append({'t': 'ellipse', 'c': (lon, lat), 'a': r, 'b': max(0.001, round(r * rng.uniform(0.05, 1.0), 3)),
                         'rot': round(rng.uniform(0, 360), 3)})
     return out[:n]
+
+
+# ------------------------------------------------------------------ histories of resolution-carrying calls
+# Mechanism class covered: STATE LEFT BEHIND BY READ-ONLY CALLS.  bounds / circumscribing_rectangle /
+# circumscribing_circle are functions of the shape; every public call that takes the outline resolution `k`
+# (exports, outline accessors, binary predicates) is read-only.  A history is a short random sequence of such
+# calls, with k coarser than, equal to (None) or finer than the shape's default, evaluated on the object BEFORE
+# the first read of bounds; the answers afterwards must be those of a twin built from the same arguments that
+# had no history (c09.py) and must satisfy the model / the 1% clause (interval lemmas below, KBnd in c09.py).
+K_COARSE, K_FINE = (1, 2, 3, 4, 5, 7), (37, 61, 100)
+K_CALLS = {
+    'to_wkt': lambda S, k, o: S.to_wkt(k=k),
+    'to_polygon': lambda S, k, o: S.to_polygon(k=k),
+    'to_geojson': lambda S, k, o: S.to_geojson(k=k),
+    'to_geojson+bbox': lambda S, k, o: tuple(S.to_geojson(k=k, include_bbox=True)['geometry']['bbox']),
+    'bounding_coords': lambda S, k, o: S.bounding_coords(k=k),
+    'bounding_edges': lambda S, k, o: S.bounding_edges(k=k),
+    'linear_rings': lambda S, k, o: S.linear_rings(k=k),
+    'edges': lambda S, k, o: S.edges(k=k),
+    'intersects_shape': lambda S, k, o: S.intersects_shape(o, k=k),
+    'contains_shape': lambda S, k, o: S.contains_shape(o, k=k),
+}
+K_CALL_NAMES = sorted(K_CALLS)
+
+
+def k_history(rng, n=None):
+    """a random history: [[call name, k], ...] (JSON-able); k None = the call without an explicit resolution"""
+    n = n or rng.choice([1, 1, 2, 3])
+    return [[rng.choice(K_CALL_NAMES), rng.choice([*K_COARSE, *K_COARSE, *K_FINE, None])] for _ in range(n)]
+
+
+def apply_history(S, hist):
+    """evaluates the history on S (exceptions are part of the history, not of the verdict: a degenerate k may be
+    refused); returns the bboxes that exports with include_bbox=True handed out on the way"""
+    r = getattr(S, 'radius', None) or getattr(S, 'semi_major', None) or getattr(S, 'outer_radius', None)
+    other = GeoCircle(S.center, r / 2)          # built from the constructor arguments only: S itself is not consulted
+    boxes = []
+    for name, k in hist:
+        got = guarded(lambda: K_CALLS[name](S, k, other))
+        if name == 'to_geojson+bbox' and got[0] == 'Ok':
+            boxes.append(tuple(float(x) for x in got[1]))
+    return boxes
 
 
 # ------------------------------------------------------------------ the model in floats (to choose k and to describe a mismatch)
@@ -214,14 +257,24 @@ def run(ck, tier=None):
     worst = 0.0
     for i, sh in enumerate(shapes):
         ck.count('curved-bounds:' + sh['t'])
-        got = guarded(lambda: tuple(float(x) for x in build(sh).bounds))
+        S = build(sh)
         m = {'k': 'curved-bounds', 'shape': sh}
+        if i % 2:
+            # every other shape: read-only calls carrying an outline resolution k come first; what bounds answers
+            # afterwards goes to the same interval lemmas and the same oracle (see k_history above)
+            m['history'] = k_history(ck.rng)
+            m['bboxes_exported_during_history'] = apply_history(S, m['history'])
+            ck.count('curved-bounds-read-after-k-history')
+        got = guarded(lambda: tuple(float(x) for x in S.bounds))
         if got[0] != 'Ok' or len(got[1]) != 4 or not all(math.isfinite(x) for x in got[1]):
             prop_bad.append(dict(m, clause='bounds is a 4-tuple of finite floats', detail=repr(got)))
             continue
         ob = got[1]
         m['bounds'] = list(ob)
         m['model_bounds_float'] = list(model_bounds(sh))
+        for bb in m.get('bboxes_exported_during_history', []):
+            if tuple(bb) != tuple(ob):
+                prop_bad.append(dict(m, clause='the bbox exported by to_geojson(k=.., include_bbox=True) is the bounds of the shape', bbox=list(bb)))
         fails, rel = oracle(sh, ob)
         worst = max(worst, rel)
         if fails:
@@ -262,7 +315,11 @@ def run(ck, tier=None):
 def replay(m):
     """called by c09.py's replay for cases with k == 'curved-bounds'"""
     sh = m['shape']
-    ob = tuple(float(x) for x in build(sh).bounds)
+    S = build(sh)
+    if m.get('history'):
+        print('history replayed first:', m['history'], '-> bboxes exported:', apply_history(S, m['history']))
+        print('fresh twin (no history):', tuple(float(x) for x in build(sh).bounds))
+    ob = tuple(float(x) for x in S.bounds)
     print('implementation now:', ob)
     print('model (floats, unrounded, un-wrapped):', model_bounds(sh))
     print('clause on the implementation now:', oracle(sh, ob))
